@@ -62,18 +62,8 @@ public:
   {
     if(&other == this)
       return *this;
-    clear();
-    reserve(other.capacity());
-    T* dest = _begin.item;
-    for(T* src = other._begin.item, * end = other._end.item; src != end; ++src, ++dest)
-    {
-#ifdef VERIFY
-      VERIFY(new(dest)T(*src) == dest);
-#else
-      new(dest)T(*src);
-#endif
-    }
-    _end.item = dest;
+    Array copy(other); // other may be owned by one of the elements: they are destroyed only after it has been copied
+    swap(copy);
     return *this;
   }
 
